@@ -9,6 +9,7 @@ import tempfile
 from .. import driver, par
 from ..codec import enc
 from ..corr import runnercorr as R
+from ..corr import runnerenv as E
 from ..gen import runner_modules as G
 from ..shrink import shrink_list
 
@@ -34,6 +35,18 @@ MANIFEST = {
              "(parse_doctestables) is an input of the model (C07); CPython's exit status 1 for an uncaught exception."),
     'technique': 'Lean 4 proof (induction over the example list) + differential correspondence on generated modules',
 }
+RULE_EXTRA = (' | STATE: random modules are called several times in one process with different style / options / global-exec / '
+              'analysis per call, the same call two or three times in a row and once more at the end (a failing case is recorded '
+              'with its call history); OPTIONS: every CLI option that can change which doctests run or how they are judged '
+              '(--style, --analysis, --global-exec, --options; each also through XDOCTEST_* variables, flag over variable) and '
+              'the cosmetic ones (--offset --nocolor --colored --report --durations --time --supress-import-errors --verbose '
+              '--quiet --silent, NO_COLOR, XDOCTEST_DEBUG*), module named by absolute path from another directory / relative path '
+              '/ file name / dotted name (cwd or PYTHONPATH), stdout a terminal (pty), through __main__.main and real '
+              'subprocesses, with the effect each has BY CONSTRUCTION (kind `useglobal` passes only with global-exec; most '
+              'options change nothing); SCALE: 300 doctests with exactly 256 failures (255/257/512 thorough), only skipped '
+              'doctests, a callable with 12..40 Example blocks (`f0:1` vs `f0:10`) after up to 5000 prose lines, doctests of '
+              '30..120 statements; INTERACTIONS: google and header-less docstrings in one module under every style, nested '
+              'classes (never collected), zero-arg functions x named x list/dump/all, a per-module token (`modval`)')
 RULE = ('modules generated from 12 by-construction kinds (incl. a doctest calling pytest.skip() / raising ExitTestException at run time) (pass, fail by output, fail by exception, fail BEFORE any part ran: compile-only error in the first executed part / malformed directive, all skipped, partly skipped, expected '
         'exception, force-disabled (10 spellings x passing/failing body), comment only) + near-miss/option-sensitive kinds, two-block '
         'callables, methods, functions without doctest; EVERY order of the 12 kinds up to length 3 (quick) / 4 (thorough) and random '
@@ -45,6 +58,7 @@ ASSUMPTIONS = ['no exception escapes DocTest.run(on_error="return") (C09) and no
                'unique callnames are unique within a module and callnames contain no colon (established by collection, C07)',
                'the collected doctest list is taken from the real parse_doctestables (collection is C07)']
 
+RULE = RULE + RULE_EXTRA
 FLAG_SETS = [['--verbose', '0'], ['--verbose', '1'], ['--quiet'], ['--silent'], [], ['--verbose', '2']]
 
 
@@ -55,13 +69,14 @@ FLAG_SETS = [['--verbose', '0'], ['--verbose', '1'], ['--quiet'], ['--silent'], 
 ALPHABET = G.KINDS + G.EARLY_KINDS + G.EXIT_KINDS
 # random modules: additionally the near-miss / option-sensitive kinds and `pyskip` (first line `>>> # pytest.skip`:
 # force-disabled for pytest ONLY, so the native runner must run it)
-NATIVE_KINDS = G.KINDS + G.EXTRA_KINDS + G.EARLY_KINDS + G.EXIT_KINDS + ['pyskip']
+NATIVE_KINDS = G.KINDS + G.EXTRA_KINDS + G.EARLY_KINDS + G.EXIT_KINDS + G.STATE_KINDS + ['pyskip']
 
 
 def exhaustive_items(maxlen):
     out = []
     for n in range(1, maxlen + 1):
-        for t in itertools.product(range(len(ALPHABET)), repeat=n):
+        # all 12 kinds up to length 3; length 4 (thorough tier) over the 8 kinds of the property text
+        for t in itertools.product(range(len(ALPHABET) if n <= 3 else len(G.KINDS)), repeat=n):
             out.append(t)
     return out
 
@@ -114,12 +129,41 @@ def plan_cases(spec, rng, quick, exhaustive):
     cases = []
     for cmd in cmds:
         v = rng.choice([0, 0, 1, 3] if quick else [-1, 0, 1, 2, 3])
-        cases.append({'channel': 'api', 'cmd': cmd, 'style': style, 'verbose': v, 'optstr': optstr, 'opts': opts,
-                      'noconfig': optstr is None and rng.random() < 0.3,
-                      'ident': rng.choice(['path', 'path', 'colon', 'path' if spec.get('import_error') else 'module'])})
+        st_c, optstr_c, opts_c = style, optstr, opts
+        extra = {}
+        if not exhaustive:
+            # STATE: the calls made on one module in one process differ in style / options / global-exec /
+            # analysis, so anything carried over from an earlier call (DocTest objects, config dicts, caches)
+            # shows up as a difference from the by-construction expectation of THIS call
+            if rng.random() < 0.5:
+                st_c = rng.choice(['google', 'freeform', 'auto'])
+            if rng.random() < 0.5:
+                optstr_c, opts_c = rng.choice(G.OPTION_SETS)
+            if rng.random() < 0.25:
+                opts_c = dict(opts_c, __genv__=True)
+                extra['global_exec'] = rng.choice([E.GEXEC, E.GEXEC2])
+            extra['analysis'] = rng.choice(['auto', 'auto', 'static', 'auto' if spec.get('import_error') else 'dynamic'])
+            if rng.random() < 0.2:
+                extra['durations'] = rng.choice([0, 2])
+        cases.append(dict({'channel': 'api', 'cmd': cmd, 'style': st_c, 'verbose': v, 'optstr': optstr_c, 'opts': opts_c,
+                           'noconfig': optstr_c is None and rng.random() < 0.3,
+                           'ident': rng.choice(['path', 'path', 'colon', 'path' if spec.get('import_error') else 'module'])},
+                          **extra))
         if cmd in ('all', 'list') or rng.random() < 0.4:
             cases.append({'channel': 'main', 'cmd': cmd if not (cmd == 'all' and rng.random() < 0.3) else None, 'style': style,
                           'flags': rng.choice(FLAG_SETS), 'optstr': optstr, 'opts': opts})
+    if not exhaustive:
+        # REPETITION: the same call twice or three times in a row, and the first call again at the very end
+        rep = []
+        for c in cases:
+            rep.append(c)
+            r = rng.random()
+            if r < 0.25:
+                rep.append(dict(c, repeat=2))
+                if r < 0.08:
+                    rep.append(dict(c, repeat=3))
+        rep.append(dict(cases[0], repeat='last'))
+        cases = rep
     return cases
 
 
@@ -157,8 +201,10 @@ def _worker(args):
             cases = plan_cases(spec, rng, params['quick'], mode == 'exhaustive')
             if params.get('expect_only'):
                 cases = [c for c in cases]
-            for res in R.run_cases(d, spec, cases, trace, use_model=not params.get('expect_only')):
+            for ci, res in enumerate(R.run_cases(d, spec, cases, trace, use_model=not params.get('expect_only'))):
                 out['n'] += 1
+                if res['case'].get('repeat'):
+                    out['tags']['repeated call'] = out['tags'].get('repeated call', 0) + 1
                 suite = '%s:%s' % (mode, res['case']['channel'])
                 out['suites'][suite] = out['suites'].get(suite, 0) + 1
                 e = res['exp']
@@ -176,6 +222,9 @@ def _worker(args):
                 if nontrivial(res):
                     out['nontrivial'].add(hash((G.render(spec), repr(sorted((k, repr(v)) for k, v in res['case'].items())))))
                 inp = _pack(spec, res)
+                if (res['dis'] or res['bad']) and mode != 'exhaustive':
+                    # the calls made before this one on the same module in the same process (state / history)
+                    inp['history'] = cases[:ci]
                 if res['dis'] and len(out['dis']) < 10:
                     out['dis'].append((inp, res.get('model_raw'), '; '.join(res['dis'])))
                 if res['bad'] and len(out['exp']) < 10:
@@ -223,6 +272,158 @@ def _cli_worker(args):
     finally:
         shutil.rmtree(d, ignore_errors=True)
     return out
+
+
+# ------------------------------------------------------------------ options / environment / cwd / tty
+TARGET_MODES = ['abs-elsewhere', 'rel-parent', 'here', 'dotted-here', 'dotted-pythonpath']
+
+
+def _target(mode, path, d):
+    """(target argument, cwd, PYTHONPATH addition) for a way of naming the module"""
+    moddir, base = os.path.dirname(path), os.path.basename(path)
+    other = os.path.join(d, 'elsewhere')
+    os.makedirs(other, exist_ok=True)
+    if mode == 'abs-elsewhere':
+        return path, other, None
+    if mode == 'rel-parent':
+        return os.path.relpath(path, d), d, None
+    if mode == 'here':
+        return base, moddir, None
+    if mode == 'dotted-here':
+        return base[:-3], moddir, None
+    return base[:-3], other, moddir
+
+
+def _treated_case(d, spec, path, cmd, t, channel, mode, use_pty, trace, use_model=True):
+    """one run of the native CLI under treatment `t`; three-way comparison as for every other case"""
+    style = t['style']
+    opts = E.oracle_opts(t)
+    exp = G.expected_run(spec, style, cmd if cmd is not None else 'all', opts)
+    inv = R.real_inventory(path, style)
+    entries = R.model_entries(spec, style, opts, inv)
+    target, cwd, pp = _target(mode, path, d)
+    if channel == 'main':
+        o = E.main_inprocess(target, cmd, t['nat'], t['env'], cwd, trace)
+    else:
+        o = E.cli(target, cmd, t['nat'], t['env'], cwd, trace, use_pty=use_pty, pythonpath=pp)
+    o['verbose'] = t['verbose'] if t['verbose'] is not None else 3
+    model, raw = None, None
+    if entries is None:
+        return {'dis': [], 'bad': ['collected doctests %r, expected %r' % ([r[2] for r in inv], [x['unique'] for x in G.inventory(spec, style)])],
+                'exp': exp, 'obs': o, 'model_raw': None}
+    if use_model:
+        raw = driver.run_lines([R.runner_line(cmd if cmd is not None else 'all', entries)], jobs=1)[0]
+        model = R.parse_runner_answer(raw) if raw != 'bad-op' else None
+    dis, bad = R.compare_case(exp, model, o)
+    return {'dis': dis, 'bad': bad, 'exp': exp, 'obs': o, 'model_raw': raw}
+
+
+def _opt_worker(args):
+    shard, nshards, seed, nmod, ncase, expect_only = args
+    rng = random.Random('c10opt:%d:%d' % (seed, shard))
+    d = tempfile.mkdtemp(prefix='xdocverif-c10o-')
+    out = {'n': 0, 'suites': {}, 'nontrivial': set(), 'tags': {}, 'dis': [], 'exp': [], 'samples': []}
+    try:
+        trace = os.path.join(d, 'trace.txt')
+        moddir = os.path.join(d, 'mods')
+        os.makedirs(moddir)
+        for i in range(nmod):
+            spec = G.random_spec('o%d_%d' % (shard, i), rng, maxlen=6, kinds=NATIVE_KINDS)
+            path = R.write_module(moddir, spec)
+            for j in range(ncase):
+                style = rng.choice(['google', 'freeform', 'auto'])
+                optstr, opts = rng.choice(G.OPTION_SETS)
+                t = E.draw(rng, style, optstr, opts)
+                if t.get('needs_import') and spec.get('import_error'):
+                    continue
+                channel = 'main' if (j % 3 and not t['subprocess_only']) else 'cli'
+                mode = rng.choice(TARGET_MODES[:3]) if channel == 'main' else rng.choice(TARGET_MODES)
+                use_pty = channel == 'cli' and rng.random() < 0.25
+                cmd = rng.choice(['all', 'all', None, 'list'] + names_for(spec, style, rng, 2))
+                res = _treated_case(d, spec, path, cmd, t, channel, mode, use_pty, trace, use_model=not expect_only)
+                out['n'] += 1
+                su = 'options:%s' % channel
+                out['suites'][su] = out['suites'].get(su, 0) + 1
+                for nm in t['name'].split('+') + ['target=' + mode] + (['tty'] if use_pty else []):
+                    out['tags']['opt:' + nm] = out['tags'].get('opt:' + nm, 0) + 1
+                out['nontrivial'].add(hash((G.render(spec), t['name'], cmd, channel, mode, use_pty)))
+                inp = {'spec': spec, 'treated': {'cmd': cmd, 'treatment': t, 'channel': channel, 'mode': mode, 'pty': use_pty}}
+                if res['dis'] and len(out['dis']) < 10:
+                    out['dis'].append((inp, res['model_raw'], '; '.join(res['dis'])))
+                if res['bad'] and len(out['exp']) < 10:
+                    out['exp'].append((inp, _short(res['exp']), _short_obs(res['obs']), '; '.join(res['bad'])))
+                if not out['samples']:
+                    out['samples'].append({'treatment': t['name'], 'native args': t['nat'], 'env': t['env'], 'target': mode,
+                                           'tty': use_pty, 'cmd': cmd, 'expected': _short(res['exp'])})
+    finally:
+        shutil.rmtree(d, ignore_errors=True)
+    return out
+
+
+# ------------------------------------------------------------------ scale
+def scale_tasks(quick):
+    """(kind, parameters) : modules with many doctests / many failures / many blocks / very long docstrings"""
+    t = [('many', {'n': 300, 'nfail': 256, 'nskip': 10}),        # exit status must not be n_failed modulo 256
+         ('many', {'n': 60, 'nfail': 0, 'nskip': 60}),           # nothing but skipped doctests
+         ('blocks', {'nblocks': 40, 'prose': 1500}),             # f0:0 .. f0:39 after 1500 lines of prose
+         ('blocks', {'nblocks': 12, 'prose': 0})]
+    if not quick:
+        t += [('many', {'n': nf + 20, 'nfail': nf, 'nskip': 5}) for nf in (255, 257, 512)]
+        t += [('many', {'n': 300, 'nfail': 1, 'nskip': 0}), ('many', {'n': 50, 'nfail': 50, 'nskip': 0})]
+        t += [('blocks', {'nblocks': nb, 'prose': pr}) for nb, pr in ((10, 5000), (25, 200), (40, 0))]
+    return t
+
+
+def _scale_worker(args):
+    idx, kind, prm, seed, expect_only = args
+    rng = random.Random('c10scale:%d:%d' % (seed, idx))
+    d = tempfile.mkdtemp(prefix='xdocverif-c10sc-')
+    out = {'n': 0, 'suites': {}, 'nontrivial': set(), 'tags': {}, 'dis': [], 'exp': [], 'samples': []}
+    try:
+        trace = os.path.join(d, 'trace.txt')
+        if kind == 'many':
+            spec = G.scale_spec('sc%d' % idx, prm['n'], prm['nfail'], rng, prm['nskip'])
+            style = rng.choice(['google', 'freeform', 'auto'])
+            uq = [x['unique'] for x in G.inventory(spec, style)]
+            names = [uq[0], uq[-1], uq[min(len(uq) - 1, 255)], uq[len(uq) // 2]]
+        else:
+            spec = G.manyblock_spec('sb%d' % idx, prm['nblocks'], rng, prm['prose'])
+            style = rng.choice(['google', 'auto'])
+            # `f0:1` must select exactly one doctest although f0:10 .. f0:19 start with the same text
+            names = ['f0:1', 'f0:%d' % (prm['nblocks'] - 1), 'f0:10' if prm['nblocks'] > 10 else 'f0:2', 'f0', 'f1:0']
+        base = {'style': style, 'optstr': None, 'opts': {}}
+        cases = [dict(base, channel='api', cmd='all', verbose=0), dict(base, channel='api', cmd='list', verbose=1),
+                 dict(base, channel='cli', cmd='all', flags=['--verbose', '0']),
+                 dict(base, channel='cli', cmd=None, flags=['--quiet']),
+                 dict(base, channel='main', cmd='all', flags=['--verbose', '1'])]
+        cases += [dict(base, channel='api', cmd=nm, verbose=1) for nm in names]
+        if kind == 'blocks':
+            cases += [dict(base, channel='api', cmd=c, verbose=0, style='freeform') for c in ('all', 'f0:0', 'list')]
+        for res in R.run_cases(d, spec, cases, trace, use_model=not expect_only):
+            out['n'] += 1
+            su = 'scale:%s' % res['case']['channel']
+            out['suites'][su] = out['suites'].get(su, 0) + 1
+            tg = 'scale:%s %r' % (kind, sorted(prm.items()))
+            out['tags'][tg] = out['tags'].get(tg, 0) + 1
+            out['nontrivial'].add(hash(('scale', kind, repr(prm), repr(sorted((k, repr(v)) for k, v in res['case'].items())))))
+            inp = _pack(spec, res)
+            if res['dis'] and len(out['dis']) < 4:
+                out['dis'].append((inp, (res.get('model_raw') or '')[:300], '; '.join(res['dis'])[:2000]))
+            if res['bad'] and len(out['exp']) < 4:
+                e, o = _short(res['exp']), _short_obs(res['obs'])
+                for dd in (e, o):      # keep the record small: these modules have hundreds of doctests
+                    for k in ('ran', 'trace', 'failed', 'verdict_lines', 'names'):
+                        if isinstance(dd.get(k), list) and len(dd[k]) > 12:
+                            dd[k] = dd[k][:6] + ['... %d entries ...' % len(dd[k])] + dd[k][-3:]
+                out['exp'].append((inp, e, o, '; '.join(res['bad'])[:2000]))
+    finally:
+        shutil.rmtree(d, ignore_errors=True)
+    return out
+
+
+def _dispatch(job):
+    kind, args = job
+    return _opt_worker(args) if kind == 'opt' else _scale_worker(args)
 
 
 def _merge(corr, r):
@@ -357,34 +558,59 @@ def correspondence(ctx, corr):
     corr.exhaustive = True
     for r in par.pmap(_cli_worker, [(s, nsh, ctx.seed, 5 if ctx.quick else 40) for s in range(nsh)]):
         _merge(corr, r)
+    nm, nc = (3, 4) if ctx.quick else (12, 10)
+    jobs = [('opt', (s, nsh, ctx.seed, nm, nc, False)) for s in range(nsh)]
+    jobs += [('scale', (i, k, prm, ctx.seed, False)) for i, (k, prm) in enumerate(scale_tasks(ctx.quick))]
+    for r in par.pmap(_dispatch, jobs, jobs=16):
+        _merge(corr, r)
 
 
-def _still_fails(spec, case):
+def _eval_input(inp):
+    """(still fails its by-construction expectation?, result) of a recorded input: a case of a module, optionally
+    after the calls that preceded it in the same process (`history`), or a treated CLI run"""
     d = tempfile.mkdtemp(prefix='xdocverif-c10s-')
     try:
-        res = R.run_cases(d, spec, [case], os.path.join(d, 't.txt'), use_model=False)[0]
+        spec = inp['spec']
+        if 'treated' in inp:
+            tr = inp['treated']
+            moddir = os.path.join(d, 'mods')
+            os.makedirs(moddir)
+            path = R.write_module(moddir, spec)
+            res = _treated_case(d, spec, path, tr['cmd'], tr['treatment'], tr['channel'], tr['mode'], tr['pty'],
+                                os.path.join(d, 't.txt'), use_model=False)
+            return bool(res['bad']), res
+        cases = list(inp.get('history') or []) + [inp['case']]
+        res = R.run_cases(d, spec, cases, os.path.join(d, 't.txt'), use_model=False)[-1]
         return bool(res['bad']), res
     finally:
         shutil.rmtree(d, ignore_errors=True)
 
 
 def _shrink_hit(inp):
-    spec, case = inp['spec'], inp['case']
+    spec = inp['spec']
     name = spec['name']
+    cur = dict(inp)
+    # 1. is the history needed at all?  then: as little of it as possible
+    if cur.get('history'):
+        if _eval_input(dict(cur, history=[]))[0]:
+            cur['history'] = []
+        else:
+            cur['history'] = shrink_list(cur['history'], lambda h: _eval_input(dict(cur, history=h))[0], max_steps=25)
+    # 2. as few callables as possible
 
     def pred(funcs):
         if not funcs:
             return False
-        return _still_fails({'name': name + '_s', 'funcs': funcs}, case)[0]
+        return _eval_input(dict(cur, spec=dict(spec, name=name + '_s', funcs=funcs)))[0]
 
-    funcs = shrink_list(spec['funcs'], pred, max_steps=60)
-    small = {'name': name + '_s', 'funcs': funcs}
-    ok, res = _still_fails(small, case)
+    funcs = shrink_list(spec['funcs'], pred, max_steps=40)
+    small = dict(cur, spec=dict(spec, name=name + '_s', funcs=funcs))
+    ok, res = _eval_input(small)
     if not ok:
-        small = spec
-        ok, res = _still_fails(spec, case)
-    return {'kind': 'expectation', 'suite': 'runner',
-            'input': {'spec': small, 'case': case, 'module_source': G.render(small)},
+        small = cur
+        ok, res = _eval_input(cur)
+    small['module_source'] = G.render(small['spec'])
+    return {'kind': 'expectation', 'suite': 'runner', 'input': small,
             'expected': _short(res['exp']), 'impl': _short_obs(res['obs']), 'why': '; '.join(res['bad'])}
 
 
@@ -411,7 +637,7 @@ def search(ctx, corr, broken):
         except Exception as ex:  # noqa
             ctx.note('shrinking raised %r' % (ex,))
             continue
-        key = repr(h['input']['spec']['funcs']) + repr(sorted(h['input']['case'].items(), key=repr))
+        key = repr(h['input']['spec']['funcs']) + repr(h['input'].get('case') or h['input'].get('treated'))
         if h['why'] and key not in seen:
             seen.add(key)
             hits.append(h)
@@ -457,8 +683,56 @@ def classify(ctx, hit):
     return None
 
 
+SAMENAME = ('def _modval(x):\n    return "v%d"\n\n\ndef f():\n    """\n    Example:\n        >>> print(_modval(0))\n'
+            '        v%d\n    """\n')
+SAMENAME_SCRIPT = ('import sys, io, contextlib, xdoctest\nout = []\nfor p in sys.argv[1:]:\n    buf = io.StringIO()\n'
+                   '    with contextlib.redirect_stdout(buf):\n        rs = xdoctest.doctest_module(p, command="all", argv=[], verbose=0)\n'
+                   '    out.append("%d/%d" % (rs["n_passed"], rs["n_failed"]))\nprint(" ".join(out))\n')
+
+
+def _witness_samename():
+    """two DIFFERENT modules with the same file name in two directories, each with a doctest that passes on its
+    own module: tallies of d1, d2, d1 again in ONE process, and of d2 alone in a fresh process"""
+    import subprocess
+    import sys
+    d = tempfile.mkdtemp(prefix='xdocverif-c10k-')
+    try:
+        paths = []
+        for i in (1, 2):
+            os.makedirs(os.path.join(d, 'd%d' % i))
+            paths.append(os.path.join(d, 'd%d' % i, 'samename_verif.py'))
+            with open(paths[-1], 'w') as f:
+                f.write(SAMENAME % (i, i))
+        run = lambda ps: subprocess.run([sys.executable, '-c', SAMENAME_SCRIPT] + ps, cwd=d, env=R.clean_env(),
+                                        stdout=subprocess.PIPE, stderr=subprocess.STDOUT, timeout=120).stdout.decode().strip().splitlines()[-1]
+        return run([paths[0], paths[1], paths[0]]), run([paths[1]])
+    finally:
+        shutil.rmtree(d, ignore_errors=True)
+
+
+def _witness_colon_cli():
+    import subprocess
+    import sys
+    d = tempfile.mkdtemp(prefix='xdocverif-c10k-')
+    try:
+        path = os.path.join(d, 'colonmod.py')
+        with open(path, 'w') as f:
+            f.write('def f():\n    """\n    Example:\n        >>> print(1)\n        1\n    """\n')
+        p = subprocess.run([sys.executable, '-m', 'xdoctest', path + '::f', '--verbose', '1'], cwd=d, env=R.clean_env(),
+                           stdout=subprocess.PIPE, stderr=subprocess.STDOUT, timeout=120)
+        return p.returncode, p.stdout.decode('utf8', 'replace')
+    finally:
+        shutil.rmtree(d, ignore_errors=True)
+
+
 def replay_finding(ctx, finding):
     kid = finding.get('id')
+    if kid == 'K-C10-c':
+        together, alone = _witness_samename()
+        return together == '1/0 0/1 1/0' and alone == '1/0'
+    if kid == 'K-C10-d':
+        rc, out = _witness_colon_cli()
+        return rc == 1 and 'Command must be None if using :: syntax' in out and not R.verdict_lines(out)
     if kid not in KSRC:
         return False
     rc, out = _run_witness(kid)
@@ -474,9 +748,17 @@ def replay_finding(ctx, finding):
 
 def replay(ctx, failing):
     inp = failing['input']
-    ok, res = _still_fails(inp['spec'], inp['case'])
+    ok, res = _eval_input(inp)
     print('module:\n' + G.render(inp['spec']))
-    print('case: %r' % ({k: v for k, v in inp['case'].items() if k != 'opts'},))
+    if 'treated' in inp:
+        tr = inp['treated']
+        print('native CLI (%s%s), module named as %s, command %r, arguments %r, environment %r' % (
+            tr['channel'], ', stdout is a terminal' if tr['pty'] else '', tr['mode'], tr['cmd'], tr['treatment']['nat'],
+            tr['treatment']['env']))
+    else:
+        for h in inp.get('history') or []:
+            print('earlier call in the same process: %r' % ({k: v for k, v in h.items() if k != 'opts'},))
+        print('case: %r' % ({k: v for k, v in inp['case'].items() if k != 'opts'},))
     print('expected: %r' % (_short(res['exp']),))
     print('observed: %r' % ({k: v for k, v in _short_obs(res['obs']).items() if k != 'stdout'},))
     print('problems: %s' % ('; '.join(res['bad']) or 'none'))
